@@ -506,7 +506,7 @@ class TFLiteSupportedOperators:
 
     @staticmethod
     def constraint_bias_shape(op):
-        "Optional Bias tensor must be of shape: 1D"
+        "Optional Bias tensor must be of shape: 1D (a constant Bias tensor of any other shape is reshaped to 1D)"
         bias = op.bias
         if bias:
             valid = len(bias.shape) == 1
